@@ -55,6 +55,30 @@ EXC = {
     're.error': re.error, 'RecursionError': RecursionError, 'UnicodeError': UnicodeError,
     'FrozenInstanceError': __import__('dataclasses').FrozenInstanceError,
 }
+# exception classes named in `except` clauses / raise statements of the source are resolved dynamically
+import ast as _ast, glob as _glob, importlib as _il
+for _path in _glob.glob(os.path.join(sys.argv[1] if len(sys.argv) > 1 else '/repo', 'pane', '**', '*.py'), recursive=True):
+    _rel = os.path.relpath(_path, sys.argv[1] if len(sys.argv) > 1 else '/repo')[:-3].replace(os.sep, '.')
+    if _rel.endswith('.__init__'):
+        _rel = _rel[:-9]
+    try:
+        _mod = _il.import_module(_rel)
+        _tree = _ast.parse(open(_path).read())
+    except Exception:
+        continue
+    for _n in _ast.walk(_tree):
+        _names = []
+        if isinstance(_n, _ast.ExceptHandler) and _n.type is not None:
+            _names = _n.type.elts if isinstance(_n.type, _ast.Tuple) else [_n.type]
+        for _e in _names:
+            try:
+                _obj = eval(compile(_ast.Expression(_e), '<x>', 'eval'), vars(_mod))
+                _nm = _ast.unparse(_e).split('.')[-1]
+                if isinstance(_obj, type) and issubclass(_obj, BaseException) and _nm not in EXC and _obj not in EXC.values():
+                    EXC[_nm] = _obj
+            except Exception:
+                pass
+
 ATTRS = ['copy', 'pop', 'items', 'keys', 'values', 'get', 'pattern', 'isoformat', 'append', 'add',
          'value', 'fromisoformat', '__len__', '__iter__', '__getitem__', '__contains__']
 
